@@ -549,6 +549,88 @@ def c17(acc):
     return acc.finish()
 
 
+RT_TYPES = ["F01", "F02", "F03", "F04", "F05", "F07", "F08", "F11", "F15", "F16", "F17", "F18", "F19", "F20", "F22", "F23"]
+
+
+def mc_serde(acc, types, mode, name, timeout=2500):
+    cfg = f"""SPECIFICATION Spec
+CONSTANTS
+  Types = {{{', '.join('"%s"' % t for t in types)}}}
+  Mode = "{mode}"
+  Emit = TRUE
+INVARIANTS Inv_SerOk Inv_WellFormed Inv_Injective Inv_Emit
+CHECK_DEADLOCK FALSE
+"""
+    r = tlc("MC_Serde", cfg, name=name, timeout=timeout)
+    acc.add_tlc(r, f"A:MC_Serde mode={mode} types={len(types)}")
+    path = os.path.join(work_dir("beh-" + name), "behaviours.ndjson")
+    write_ndjson(path, r.tagged.get("REPLAY", []))
+    return r, path
+
+
+def serde_replay(acc, path, aspect, leg):
+    summ, viol, _ = harness(["serde-replay", "--file", path, "--prop", acc.pid, "--out-dir", REPLAY_DIR, "--aspect", aspect, "--seed", SEED])
+    acc.add_harness(summ, viol, leg)
+
+
+def serde_traces(acc, path, every, leg):
+    wd = work_dir("trace-" + acc.pid)
+    tp = os.path.join(wd, "trace.ndjson")
+    args = ["serde-record", "--file", path, "--out", tp, "--every", every, "--seed", SEED]
+    summ, viol, _ = harness(args)
+    ok = validate_trace(acc, "TraceSerde", tp, leg, "", rerun_args=[str(a) for a in args])
+    if summ:
+        acc.traces += summ["traces"] if ok else 0
+        acc.evaluations += summ["events"]
+
+
+SERDE_TRUST = ["TLC", "harness/src/family.rs (the Rust type family; serde_json must accept every generated value for the type of the same name, else the run aborts as a tool error)",
+               "harness/src/serde_leg.rs, writer::read_back", "serde derive semantics for the attributes used by the family",
+               "number formatting is opaque (decimal atoms)"]
+
+
+def c06(acc):
+    """Serialize-then-deserialize returns the original value."""
+    q = acc.tier == QUICK
+    acc.rule = ("(A) MC_Serde: every value of 16 family types (every documented mapping row) from finite generators over a markup-heavy string pool, empty/singleton/longer "
+                "lists, numeric extremes: serialization succeeds on the documented domain, the logical document is well-formed, and the mapping is injective on the "
+                "domain (distinct values => distinct documents). (B) every value built with serde_json for the Rust type, serialized under 3 quote levels x "
+                "{plain, 2 blanks, tab} indentation x expand-empty, deserialized with from_str and compared with the original. (C) the real serializer output parsed by the "
+                "SPECIFICATION's reader and compared with the model's logical document. non-trivial = values whose document has more than 4 logical events")
+    acc.trusted = SERDE_TRUST
+    _, p = mc_serde(acc, RT_TYPES, "rt", "MC_Serde-rt")
+    serde_replay(acc, p, "c06", "B:replay values x 18 option combinations (round trip)")
+    serde_traces(acc, p, 4 if q else 1, "C:real serializer output parsed by the spec reader")
+    return acc.finish()
+
+
+def c13(acc):
+    """The serializer emits only well-formed XML that carries the data unchanged."""
+    q = acc.tier == QUICK
+    acc.rule = ("(A) MC_Serde in mode 'all': the family values plus hostile strings (blank-only, NUL, newline, '>', markup) and the hostile map type with arbitrary keys; "
+                "the model's document is properly nested with legal names or the model rejects. (B) real output under every option combination must be an error or "
+                "parse without error (reader + attribute iteration), be properly nested and read back as exactly the model's logical document (injection freedom: "
+                "names/structure never depend on payloads). (C) real output parsed by the spec reader. non-trivial = documents with more than 4 logical events")
+    acc.trusted = SERDE_TRUST
+    _, p = mc_serde(acc, RT_TYPES + ["H01", "H02", "H05", "H06"], "all", "MC_Serde-all")
+    serde_replay(acc, p, "c13", "B:replay values incl. hostile (well-formedness, data carried)")
+    serde_traces(acc, p, 6 if q else 1, "C:real serializer output parsed by the spec reader")
+    return acc.finish()
+
+
+def c14(acc):
+    """Deserializing from a string and from any reader gives the same result."""
+    q = acc.tier == QUICK
+    acc.rule = ("(A) inherited: Source.tla (chunk independence of the event stream, MC_Source) - run here with the default configuration; (B) every serialized family "
+                "value deserialized with from_str and with from_reader over piece sizes 1,2,3,7 and random cuts: both fail or both succeed with equal values; plus the "
+                "mutated/truncated documents of the C07 leg. non-trivial = documents with more than 4 logical events")
+    acc.trusted = SERDE_TRUST
+    mc_source(acc, 2, faults=False, name="MC_Source-c14")
+    _, p = mc_serde(acc, RT_TYPES if not q else RT_TYPES[:10], "rt", "MC_Serde-c14")
+    serde_replay(acc, p, "c14", "B:from_str vs from_reader under chunkings")
+    return acc.finish()
+
+
 def run_check(pid, tier):
     fn = REGISTRY.get(pid)
     if fn is None:
@@ -572,6 +654,9 @@ def replay(pid, path):
     if kind == "escape-replay":
         p = subprocess.run([build_harness(False), "escape-rerun", "--file", path], cwd=ROOT)
         return p.returncode
+    if kind == "serde-replay":
+        p = subprocess.run([build_harness(False), "serde-rerun", "--file", path], cwd=ROOT)
+        return p.returncode
     if kind == "writer-replay":
         p = subprocess.run([build_harness(False), "writer-rerun", "--file", path], cwd=ROOT)
         return p.returncode
@@ -589,4 +674,4 @@ def replay(pid, path):
     return 1
 
 
-REGISTRY = {"C01": c01, "C02": c02, "C03": c03, "C04": c04, "C05": c05, "C08": c08, "C09": c09, "C10": c10, "C11": c11, "C12": c12, "C16": c16, "C17": c17, "C18": c18, "C19": c19}
+REGISTRY = {"C01": c01, "C02": c02, "C03": c03, "C04": c04, "C05": c05, "C06": c06, "C08": c08, "C09": c09, "C10": c10, "C11": c11, "C12": c12, "C13": c13, "C14": c14, "C16": c16, "C17": c17, "C18": c18, "C19": c19}
